@@ -2697,11 +2697,13 @@ class TensorDict(TensorDictBase):
                 non_blocking=False,
             )
         else:
+            # the entry moves to another node, which may have a longer batch size or
+            # another device: that node must validate it
             self._set_tuple(
                 new_key,
                 value,
                 inplace=False,
-                validated=True,
+                validated=False,
                 non_blocking=False,
             )
         if not new_under_old and not (
